@@ -72,6 +72,28 @@ def cases(ctx):
         cmds = pathsem.parse_simple(transformed_d(d, A))
         d2 = pathsem.fmt([(c, [round(v, nd) for v in a]) for c, a in cmds])
         extra.append((d, d2, rng.choice([0.6, 1.0, 2.0]) * 10 ** -nd, 'inexact_image'))
+    # fine tolerance, coordinates with many decimals: an exact image must still be found / verified at that tolerance
+    FINE = ['M0.12345,0.5 L4.00045,0.33333 L3.14159,2.71828 Z', 'M-7.00045,1.5 L2.2361,0.7071 L1.4142,5.3852 L-3.60555,4.12311 Z']
+    for d in FINE:
+        for name, A in T.items():
+            for tol in (0.0001, 0.001):
+                extra.append((d, transformed_d(d, A), tol, name))
+    # near misses just beyond the tolerance on pairs only the last search stage solves (non-uniform scale / mirror seen in a
+    # rotated frame): every vertex coordinate in turn is pushed by 1.2-1.4 x tolerance
+    PENT = [(0.0, 0.0), (10.0, 0.0), (10.0, 6.0), (4.0, 9.0), (-3.0, 5.0)]
+    I = Affine2D.identity()
+    STAGE3 = [I.translate(20, 5).rotate(math.radians(45)).scale(1, 2), I.translate(-3, 8).rotate(math.radians(30)).scale(1, -1.5),
+              I.rotate(math.radians(135)).scale(1, 3), I.translate(1, 1).rotate(math.radians(60)).scale(1, 0.5)]
+    for A in STAGE3:
+        img = [A.map_point(p) for p in PENT]
+        d1 = 'M' + ' L'.join(f'{x!r},{y!r}' for x, y in PENT) + ' Z'
+        for tol in (0.001, 0.01, 0.1):
+            extra.append((d1, 'M' + ' L'.join(f'{x!r},{y!r}' for x, y in img) + ' Z', tol, 'stage3_exact'))
+            for k in range(1, len(img)):
+                for axis in (0, 1):
+                    f = rng.choice([1.2, 1.3, 1.4, -1.3])
+                    pts = [list(p) for p in img]; pts[k][axis] += f * tol
+                    extra.append((d1, 'M' + ' L'.join(f'{x!r},{y!r}' for x, y in pts) + ' Z', tol, 'near_miss_fine'))
     # the same numbers once as absolute and once as relative commands: different outlines
     for d in ['M0,0 L10,0 L10,10 L0,10 Z', 'M2,1 L8,3 L5,9 Z', 'M1,1 C2,3 4,3 5,1 L3,-2 Z']:
         cm = pathsem.parse_simple(d)
@@ -84,7 +106,7 @@ def corr(ctx):
     m = ctx.model()
     stats = {'evaluations': 0, 'nontrivial': set(), 'samples': [], 'disagreements': [], 'distribution': {}}
     for d1, d2, tol, kind in cases(ctx):
-        if kind == 'inexact_image': continue      # decisions at the tolerance boundary depend on float rounding: judged, not compared
+        if kind in ('inexact_image', 'near_miss_fine', 'stage3_exact'): continue      # decisions at the tolerance boundary depend on float rounding: judged, not compared
         impl = impl_between(d1, d2, tol)
         mod = m.call('affine_between', [cmds_of(d1), cmds_of(d2), F(tol)])
         stats['evaluations'] += 1
